@@ -241,7 +241,8 @@ Walk:
 	paramKeyCnt = 0
 	hasSkpNds := len(*c.skipNds) > 0
 
-	if charsMatchedInNodeFound == len(current.key) {
+	// The path lookup is only relevant once the whole host is consumed by the whole key.
+	if charsMatched == len(host) && charsMatchedInNodeFound == len(current.key) {
 		// linear search
 		idx = -1
 		for i := 0; i < len(current.childKeys); i++ {
